@@ -2,13 +2,13 @@ CONSTANTS
   Fresh <- Fresh4
   PreScopes = {"_SB_"}
   MaxProd = 3  MaxTables = 1  MaxDepth = 2
-  OpenKinds = {"Device", "ThermalZone", "Processor", "PowerRes"}  DeclKindsOn = {"Name", "OpRegion", "Mutex", "Event"}
+  OpenKinds = {"Device", "Processor", "PowerRes"}  DeclKindsOn = {"Name", "OpRegion", "Mutex", "Event"}
   Forms = {"abs"}
   FieldKinds = {"Field"}
   ScopeOn = FALSE  FieldOn = TRUE  MethodFlags = {}  StmtKinds = {}  MaxStmts = 0
   Widths = {}
   ChainItems = 0
-  Excluded = {"D1", "D1b", "D2", "D2c", "D3", "D5", "D7", "D8", "D9", "D10", "D11", "D12", "D13", "D14", "D15"}
+  Excluded = {"D1", "D1b", "D2", "D2c", "D3", "D5", "D6", "D7", "D8", "D9", "D10", "D11", "D12", "D13", "D14", "D15", "D16"}
   Emit = TRUE  Bug = ""
 INIT Init
 NEXT Next
